@@ -822,9 +822,13 @@ def pollIteration (v : VSock) (c : Ctx) : VSock × Ctx × Step :=
   match next with
   | some instant =>
     let duration := instant - v.pollNow
-    if duration = 0 then   -- the Sleep is Ready at once: `arm_in` returns false and the task wakes itself
+    if duration = 0 ∧ c.now % 1000000 = 0 then
+      -- the deadline's 1 ms timer tick has already been reached: the Sleep is Ready at once, `arm_in` returns
+      -- false and the task wakes itself; and resetting a Sleep that is still registered to such a deadline fires
+      -- it on the spot, which wakes the waker stored by the earlier registration (a second wake-up)
       ({ v with timers := { v.timers with sleep := c.now, sleepRegistered := false } },
-       { c with wakes := c.wakes ++ [Wake.dispatcher] }, .done .pending)
+       { c with wakes := c.wakes ++ (if v.timers.sleepRegistered then [Wake.dispatcher, Wake.dispatcher] else [Wake.dispatcher]) }, .done .pending)
+    -- (a zero duration off the tick boundary is rounded up to the next tick by the timer wheel: registered as usual)
     else ({ v with timers := { v.timers with sleep := c.now + duration, sleepRegistered := true } }, c, .done .pending)
   | none => (v, c, .done .pending)
 
